@@ -36,7 +36,7 @@ AllFlags == {"is_table", "sequence", "last_token", "columns_def", "after_columns
 
 VARIABLES tpl, idx,          \* the template being emitted and the next slot
           is_table, sequence, last_token, columns_def, after_columns, check, last_par, lp_open, is_alter, is_like, lt_open,
-          depth,             \* ghost: true `<` nesting depth
+          depth,             \* ghost: true `<` nesting depth of the type being written
           out,               \* Seq([kind, v, type]) the tokens typed so far in this statement
           bad,               \* set of violated per-token expectations (ghost, for the invariants)
           hist
@@ -133,7 +133,7 @@ Tok(slot, w) ==
                          ELSE IF t4 \in {"TABLE", "INDEX"} /\ ~(is_alter \/ t4 = "ALTER") THEN TRUE ELSE is_table
           /\ last_token' = t4
           /\ columns_def' = columns_def
-          /\ depth' = depth + w.nlt - w.ngt
+          /\ depth' = IF slot.kind \in {"type", "typestart"} THEN depth + w.nlt - w.ngt ELSE depth   \* brackets count in type positions only
           /\ out' = Append(out, rec(t4))
           /\ bad' = bad \cup Expect(slot, w, t4)
 
